@@ -740,3 +740,60 @@ func init() {
 		Why: "the packet logger builds its ResponseLogger without a logger: the first logged reply dereferences nil",
 		Edits: []Edit{{File: "cmds/server/handlers/response_logger.go", Old: `	return &ctxLogger{loggerProvider: l, Writer: &ResponseLogger{loggerProvider: l}}`, New: `	return &ctxLogger{loggerProvider: l, Writer: &ResponseLogger{}}`}}})
 }
+
+func init() {
+	// ---- C03 ------------------------------------------------------------------------------
+	addMutant(Mutant{Name: "c03-writer-length-store-dropped", Props: []string{"C03", "C06"}, Rule: "R-", KeySub: "",
+		Why: "the writer no longer sets Header.Length from the body before computing the pad",
+		Edits: []Edit{{File: "crypt.go", Old: `	p.Header.Length = uint32(len(p.Body))
+`, New: ``}}})
+	addMutant(Mutant{Name: "c03-detector-before-pad", Props: []string{"C03", "C19"}, Rule: "R-PADSHAPE", KeySub: "read",
+		Why: "the key-mismatch detector runs on the still obfuscated body",
+		Edits: []Edit{{File: "crypt.go", Old: `	// run crypt first before we look for bad secrets
+	if err := crypt(c.secret, &p); err != nil {
+		crypterCryptError.Inc()
+		return nil, err
+	}
+`, New: ``},
+			{File: "crypt.go", Old: `	crypterRead.Inc()
+	return &p, nil`, New: `	if err := crypt(c.secret, &p); err != nil {
+		crypterCryptError.Inc()
+		return nil, err
+	}
+	crypterRead.Inc()
+	return &p, nil`}}})
+	addMutant(Mutant{Name: "c03-hash-order-version-before-key", Props: []string{"C03"}, Rule: "R-PADSHAPE", KeySub: "hash-input-order",
+		Why: "version octet hashed before the key: self-consistent between this client and server",
+		Edits: []Edit{{File: "crypt.go", Old: `		h.Write(secret)
+		h.Write(version)`, New: `		h.Write(version)
+		h.Write(secret)`}}})
+	addMutant(Mutant{Name: "c03-flags-cleared-in-pad", Props: []string{"C03"}, Rule: "R-PADSHAPE", KeySub: "header-untouched",
+		Why: "the pad function normalises the header flags",
+		Edits: []Edit{{File: "crypt.go", Old: `	headerLen := int(p.Header.Length)`, New: `	p.Header.Flags.Clear(SingleConnect)
+	p.Header.Flags = p.Header.Flags &^ SingleConnect
+	headerLen := int(p.Header.Length)`}}})
+	addMutant(Mutant{Name: "c03-pad-from-body-length", Props: []string{"C03"}, Rule: "R-PADSHAPE", KeySub: "pad-truncated",
+		Why: "no truncation of the pad (pad longer than the body changes nothing for XOR but the chain test) — truncation dropped",
+		Edits: []Edit{{File: "crypt.go", Old: `		// truncate to length of body
+		if len(pad) > headerLen {
+			pad = pad[:headerLen]
+		}
+`, New: ``}}})
+	addMutant(Mutant{Name: "c03-seq-octet-from-constant", Props: []string{"C03"}, Rule: "R-PADSHAPE", KeySub: "hash-input-order",
+		Why: "the sequence octet fed to the hash is always 1",
+		Edits: []Edit{{File: "crypt.go", Old: `	seqNo := []byte{byte(p.Header.SeqNo)}`, New: `	seqNo := []byte{byte(1)}`}}})
+	addMutant(Mutant{Name: "c03-unencrypted-check-after-pad", Props: []string{"C03"}, Rule: "R-PADSHAPE", KeySub: "clear-flag-first",
+		Why: "the clear flag is tested only for non-empty secrets",
+		Edits: []Edit{{File: "crypt.go", Old: `	if p.Header.Flags.Has(UnencryptedFlag) {
+		return nil
+	}
+
+	sessionID, err`, New: `	if len(secret) == 0 && p.Header.Flags.Has(UnencryptedFlag) {
+		return nil
+	}
+
+	sessionID, err`}}})
+	addMutant(Mutant{Name: "c03-xor-skips-first-byte", Props: []string{"C03"}, Rule: "R-PADSHAPE", KeySub: "xor-in-place",
+		Why: "the XOR uses pad[i] for body[i] except a shifted index",
+		Edits: []Edit{{File: "crypt.go", Old: `		p.Body[i] = b ^ pad[i]`, New: `		p.Body[i] = b ^ pad[len(pad)-1-i]`}}})
+}
